@@ -194,17 +194,23 @@ class Utf8Samples(Job):
             wire = CX.encode_record(CX.Open(sq, 5, s))
         # the name part is concrete: compare through the real decoder
         tail = bytes(wire.e[9:])
-        check(tail.decode("utf8") == s, "utf8 round trip")
-        r = CX.parse_record(b"\x03" + b"\0\0\0\5" + b"\0\0\0\7" + tail)
-        check(r == CX.Open(7, 5, s), "utf8 parse")
+        check(tail == s.encode("utf8"), "utf8 round trip: the encoded subprotocol name is not the UTF-8 of the name")
+        try:
+            r = CX.parse_record(b"\x03" + b"\0\0\0\5" + b"\0\0\0\7" + tail)
+        except UnicodeDecodeError:
+            r = None
+        check(r == CX.Open(7, 5, s), "utf8 parse: an Open with a non-ASCII subprotocol name is not recovered")
         eng().note("nt:utf8-ok")
 
     must_reach = ("nt:utf8-ok",)
 
     def replay(self, inp, label):
         s = self.SAMPLES[inp["i"]]
-        r = CX.parse_record(CX.encode_record(CX.Open(inp["seqnum"], 5, s)))
-        return None if r == CX.Open(inp["seqnum"], 5, s) else "utf8 round trip failed for %r" % s
+        try:
+            r = CX.parse_record(CX.encode_record(CX.Open(inp["seqnum"], 5, s)))
+        except UnicodeDecodeError as e:
+            return "utf8 round trip failed for %r: %r" % (s, e)
+        return None if r == CX.Open(inp["seqnum"], 5, s) else "utf8 round trip failed for %r: came back as %r" % (s, getattr(r, "subprotocol", r))
 
 
 # ------------------------------------------------------------------ (2) decoder totality
